@@ -538,7 +538,7 @@ fn handle(line: &str) -> String {
             for _ in 0..stops {
                 let _ = tx.send(weechess_engine::searcher::ControlEvent::Stop);
             }
-            // join with a watchdog: a search that does not come back within 20 s is reported
+            // join with a watchdog: a search that does not come back within 30 s is reported
             let (done_tx, done_rx) = std::sync::mpsc::channel();
             std::thread::spawn(move || {
                 let r = handle.join();
@@ -550,7 +550,7 @@ fn handle(line: &str) -> String {
                     h2.join().is_ok()
                 }));
             });
-            let res = done_rx.recv_timeout(std::time::Duration::from_secs(20));
+            let res = done_rx.recv_timeout(std::time::Duration::from_secs(30));
             let latency = t0.elapsed().as_millis();
             let nonempty = reader.map(|r| r.join().unwrap_or(false)).unwrap_or(true);
             match res {
@@ -559,7 +559,7 @@ fn handle(line: &str) -> String {
                     latency, counter.load(std::sync::atomic::Ordering::SeqCst), nonempty, reuse_ok, has_moves
                 ),
                 Ok(Err(_)) => "search-thread-panicked".into(),
-                Err(_) => format!("not-joined-after-20s has_moves={}", has_moves),
+                Err(_) => format!("not-joined-after-30s has_moves={}", has_moves),
             }
         }
         "book" => {
